@@ -18,7 +18,11 @@ func genConfig(job *simkit.Job, rng *simkit.RNG, idx int64) (Config, []Action) {
 		cfg.Stall = true // no shell attached: entered lines pile up on the input channel
 		cfg.ChanCap = []int{1, 2, 4}[rng.Intn(3)]
 	}
-	mode := rng.Pick([]int{70, 18, 12}) // timing | lock-order template | lock-order random
+	wIns := 5
+	if job.Property == "C02" {
+		wIns = 20 // the operator's input is what this profile is about
+	}
+	mode := rng.Pick([]int{70, 18, 12, wIns}) // timing | lock-order template | lock-order random | insert-chain template
 	if job.Mode == "selftest" && mode != 0 && rng.Chance(1, 2) {
 		mode = 0
 	}
@@ -44,6 +48,8 @@ func genConfig(job *simkit.Job, rng *simkit.RNG, idx int64) (Config, []Action) {
 		}
 		cfg.Steps = len(script) + rng.Range(0, 10)
 		return cfg, script
+	case 3:
+		return cfg, genInsertChain(&cfg, rng)
 	case 2:
 		// random lock-order runs park only before locks are taken (a goroutine
 		// parked while it holds the write lock would stall others in a way the
@@ -60,6 +66,73 @@ func genConfig(job *simkit.Job, rng *simkit.RNG, idx int64) (Config, []Action) {
 		}
 	}
 	return cfg, nil
+}
+
+// genInsertChain: things entered one after the other while an insert entered
+// before them is still under way (its source is slow), among them inserts
+// whose source fails or has nothing: whatever becomes of each, the order of
+// what arrives is the order entered.
+func genInsertChain(cfg *Config, rng *simkit.RNG) []Action {
+	var script []Action
+	typed, plain, status := 0, 0, 0
+	filler := func() {
+		if !rng.Chance(1, 4) {
+			return
+		}
+		switch rng.Intn(3) {
+		case 0:
+			script = append(script, Action{K: "plain", B: []byte(fmt.Sprintf("<P%d>", plain))})
+			plain++
+		case 1:
+			script = append(script, Action{K: "status", B: []byte(fmt.Sprintf("<S%d> status", status))})
+			status++
+		case 2:
+			script = append(script, Action{K: "sleep", Ns: []int64{1e6, 1e8, 1e9, 3e9}[rng.Intn(4)]})
+		}
+	}
+	line := func() {
+		script = append(script, Action{K: "key", B: []byte(fmt.Sprintf("typed%d\r", typed))})
+		typed++
+	}
+	tab := Action{K: "key", B: []byte{0x09}}
+	bad := func() string { return []string{"err", "empty"}[rng.Intn(2)] }
+	for i := rng.Range(0, 2); i > 0; i-- {
+		line()
+	}
+	if cfg.InsertSource != "" {
+		script = append(script, Action{K: "src_mode", Mode: "ok"})
+	}
+	hold := Action{K: "src_hold"}
+	if rng.Chance(1, 4) {
+		hold.Mode = "all"
+	}
+	script = append(script, hold)
+	filler()
+	script = append(script, tab)
+	for n := rng.Range(1, 3); n > 0; n-- {
+		filler()
+		switch rng.Pick([]int{50, 20, 15, 15}) {
+		case 0:
+			script = append(script, Action{K: "src_mode", Mode: bad()}, tab)
+		case 1:
+			script = append(script, Action{K: "src_mode", Mode: bad()}, tab, Action{K: "src_mode", Mode: "ok"})
+		case 2:
+			line()
+		case 3:
+			script = append(script, Action{K: "src_mode", Mode: "ok"}, tab)
+		}
+	}
+	filler()
+	line()
+	if rng.Chance(1, 3) {
+		line()
+	}
+	filler()
+	if rng.Chance(3, 4) {
+		script = append(script, Action{K: "src_release"})
+	}
+	cfg.Steps = len(script) + rng.Range(0, 12)
+	return script
 }
 
 func (s *sim) genSleep() int64 {
@@ -110,6 +183,16 @@ func (s *sim) generate() (Action, bool) {
 	add(Action{K: "key", B: []byte(fmt.Sprintf("typed%d\r", len(s.typedLines)))}, 6)
 	add(Action{K: "key", B: []byte{0x09}}, 3)
 	add(Action{K: "drain"}, 4)
+	if s.srcHold {
+		add(Action{K: "src_release"}, 20)
+	} else {
+		add(Action{K: "src_hold", Mode: []string{"", "all"}[r.Intn(2)]}, 1)
+	}
+	for _, m := range []string{"ok", "err", "empty"} {
+		if cur := s.srcMode; m != cur && !(m == "ok" && cur == "") {
+			add(Action{K: "src_mode", Mode: m}, 1)
+		}
+	}
 	// output ending in an incomplete UTF-8 sequence (Latin-1 text, binary data, a cut character)
 	tails := []string{"\xe9", "\xf0\x9f", "caf\xc3", "\xff\xfe"}
 	add(Action{K: "plain", B: []byte(fmt.Sprintf("<P%d>", len(s.plainSent)) + tails[r.Intn(len(tails))])}, 6)
